@@ -15,7 +15,7 @@ import (
 func init() {
 	register(&Rule{ID: "C12.TBL", Min: 300, Doc: "the availability switch, SpecialFunctionNames and allWorkflowKeys agree in both directions; entries are lower-case and name real contexts", Run: runC12Tbl})
 	register(&Rule{ID: "C12.KEYS", Min: 40, Doc: "every workflow key that can reach WorkflowKeyAvailability is \"\" or a key of the table, and every table key is used", Run: runC12Keys})
-	register(&Rule{ID: "C12.MAP", Min: 30, Doc: "each AST field is checked with the table key of its own YAML path", Run: runC12Map})
+	register(&Rule{ID: "C12.MAP", Min: 100, Doc: "each AST field is checked with the table key of its own YAML path, also the fields a helper checks with a key it forwards or computes", Run: runC12Map})
 	register(&Rule{ID: "C12.CASE", Min: 3, Doc: "names are lower-cased before they are compared with the availability lists", Run: runC12Case})
 }
 
@@ -422,7 +422,7 @@ var fieldYAMLPath = map[string]string{
 	"Job.If": "jobs.<job_id>.if", "Job.Concurrency": "jobs.<job_id>.concurrency", "Job.ContinueOnError": "jobs.<job_id>.continue-on-error",
 	"Job.TimeoutMinutes": "jobs.<job_id>.timeout-minutes", "Job.Container": "jobs.<job_id>.container",
 	"Runner.LabelsExpr": "jobs.<job_id>.runs-on", "Runner.Labels": "jobs.<job_id>.runs-on", "Runner.Group": "jobs.<job_id>.runs-on.group",
-	"Services.Expression": "jobs.<job_id>.services", "Service.Container": "jobs.<job_id>.services",
+	"Services.Expression": "jobs.<job_id>.services", "Service.Container": "jobs.<job_id>.services.<service_id>",
 	"Strategy.FailFast": "jobs.<job_id>.strategy.fail-fast", "Strategy.MaxParallel": "jobs.<job_id>.strategy.max-parallel",
 	"Matrix.Expression": "jobs.<job_id>.strategy.matrix", "MatrixCombinations.Expression": "jobs.<job_id>.strategy.matrix.include", "MatrixCombination.Expression": "jobs.<job_id>.strategy.matrix.include",
 	"MatrixRow.Expression": "jobs.<job_id>.strategy.matrix.<row>", "RawYAMLString.Value": "jobs.<job_id>.strategy.matrix.<row>",
@@ -482,6 +482,7 @@ func runC12Map(c *Ctx) {
 		c.anchorMissing("WorkflowKeyAvailability")
 		return
 	}
+	nested := &c12Nested{c: c, tbl: tbl, keyRole: keyRole, occ: map[string]int{}, done: map[string]bool{}}
 	for _, fn := range p.Funcs {
 		recv := fn.Signature.Recv()
 		if recv == nil || pointeeName(recv.Type()) != "RuleExpression" {
@@ -531,6 +532,17 @@ func runC12Map(c *Ctx) {
 					c.ok(construct, call.Pos(), fmt.Sprintf("YAML path %s is governed by table key %q; passed %q", fieldYAMLPath[f], want, key))
 				} else {
 					c.bad(construct, call.Pos(), fmt.Sprintf("the value at %s is governed by table key %q but it is checked with key %q, whose availability differs", fieldYAMLPath[f], want, key))
+				}
+				// the fields the helper checks with keys it forwards or computes from this one
+				for i, a := range call.Common().Args {
+					if i == 0 || i == ki {
+						continue
+					}
+					fs := map[string]bool{}
+					fieldsFeedingDirect(a, fs)
+					if fs[f] {
+						nested.descend(g, call, i, fieldYAMLPath[f], map[*ssa.Parameter]string{}, 0)
+					}
 				}
 			}
 		})
